@@ -258,6 +258,10 @@ type HarnessResult struct {
 	Violations      []string          `json:"violation_lines,omitempty"`
 }
 
+// outBase: where replay bundles, schedules and per-harness results go (VERIF_OUT lets concurrent runs of the same
+// property, e.g. seeded-change trials, keep apart)
+func outBase() string { return envOr("VERIF_OUT", filepath.Join(verifDir, "out")) }
+
 func runChild(prop, tier, only, resultPath string, seed int) {
 	t0 := time.Now()
 	res := &HarnessResult{Harness: only, Status: "error", Bounds: map[string]string{}}
@@ -686,7 +690,7 @@ func runParent(prop, tier, only string, jobs int, list bool, seed int) int {
 			jobs = 12
 		}
 	}
-	outDir := filepath.Join(verifDir, "out", prop)
+	outDir := filepath.Join(outBase(), prop)
 	os.MkdirAll(outDir, 0o755)
 	self, _ := os.Executable()
 	results := make([]*HarnessResult, len(sel))
